@@ -137,8 +137,11 @@ def run(rep, wd, tier, seed):
     # the parent and of both children go into one trace - none may repeat
     import multiprocessing
     parent = [call(lambda: pinblock.Iso4PinBlock('1234').to_bytes()) for _ in range(3)]
-    with multiprocessing.get_context('fork').Pool(2) as pool:
-        kids = pool.map(_child_fills, [60, 60])
+    # (two pools of one worker each: two different children for certain, both forked from this process as it is now)
+    ctx = multiprocessing.get_context('fork')
+    with ctx.Pool(1) as pool_a, ctx.Pool(1) as pool_b:
+        ra, rb = pool_a.apply_async(_child_fills, (60,)), pool_b.apply_async(_child_fills, (60,))
+        kids = [ra.get(120), rb.get(120)]
     ev = [pev('iso4', '1234', supplied=False, kind=k, out=o if k == 'ok' else ()) for k, o in parent + kids[0] + kids[1]]
     traces.append({'tid': len(traces), 'events': ev, '_desc': 'format 4 blocks of a parent process and of two workers forked from it afterwards'})
     rep.extra['cipher_vectors'] = sum(1 for t in traces for e in t['events'] if e['op'] in ('tdes', 'aes'))
